@@ -10,7 +10,7 @@ PROPERTY = "C05"
 SHARDS = {"quick": 8, "thorough": 16}
 MODES = {"quick": [{"name": "jit", "env": {}}], "thorough": [{"name": "jit+boundscheck", "env": {"NUMBA_BOUNDSCHECK": "1"}}]}
 RULE = (
-    "cases: (a) the 15 supported quadrature tables (finite, walked completely: weights sum to 1, points inside the "
+    "cases (grids built from lon/lat topology or, one in three, from Cartesian-only face vertices whose lon/lat the library derives): (a) the 15 supported quadrature tables (finite, walked completely: weights sum to 1, points inside the "
     "domain, monomial moments exact to the rule's degree); (b) closed Voronoi / merged-Delaunay / polyhedral / "
     "cubed-sphere meshes from 6 to 3000 cells (face diameters 3..100 degrees), every face checked with the default "
     "rule against the exact excess (Van Oosterom-Strackee fan, cross-checked with Girard) under the property's own "
@@ -68,7 +68,7 @@ def cases(tier, seed):
         else:
             d = {"family": fam, "ne": int(rng.integers(2, 12))}
         d["ops"] = [["rot", int(rng.integers(0, 10**6))]] if (rng.random() < 0.5 and fam not in ("latlon_global", "latlon_patch")) else []
-        yield {"kind": "mesh", "mesh": d, "tseed": int(rng.integers(0, 10**6)), "all_rules": bool(i % 4 == 0)}
+        yield {"kind": "mesh", "mesh": d, "tseed": int(rng.integers(0, 10**6)), "all_rules": bool(i % 4 == 0), "source": "face_vertices_xyz" if i % 3 == 2 else "topology"}
 
 
 # --------------------------------------------------------------------------- tables
@@ -127,6 +127,17 @@ def areas(g, rule=None, order=None, latlon=True):
     return np.array(a, dtype=float)
 
 
+def make_grid(m, source):
+    """lon/lat explicit topology, or a Cartesian-only source (face-vertex constructor): lon/lat are then derived by the library"""
+    if source == "face_vertices_xyz":
+        w = max(len(f) for f in m.faces)
+        fv = np.full((m.n_face, w, 3), float(ux.INT_FILL))
+        for i, f in enumerate(m.faces):
+            fv[i, : len(f)] = m.xyz[f]
+        return ux.ux().Grid.from_face_vertices(fv, latlon=False)
+    return ux.grid_from_mesh(m)
+
+
 def run_case(ctx, case):
     if case["kind"] == "tables":
         check_tables(ctx)
@@ -153,7 +164,9 @@ def run_case(ctx, case):
     special = np.zeros(m.n_face, dtype=bool)
     for i, f in enumerate(m.faces):
         special[i] = bool(np.any(np.abs(lat[f]) > 85) or np.any(np.abs(np.abs(lon[f]) - 180) < 5))
-    g = ux.grid_from_mesh(m)
+    source = case.get("source", "topology")
+    g = make_grid(m, source)
+    ctx.observe("source_" + source)
     try:
         a0 = areas(g)
     except Exception as e:
@@ -218,7 +231,7 @@ def run_case(ctx, case):
         # cache: face_areas must equal a fresh default computation although other rules ran just before
         try:
             cached = np.array(g.face_areas.values, dtype=float)
-            fresh = areas(ux.grid_from_mesh(m))
+            fresh = areas(make_grid(m, source))
             ctx.check("cache", np.array_equal(cached, fresh), {"history": "non-default computed before first face_areas"}, {"max_diff": float(np.max(np.abs(cached - fresh))), "mesh": d})
             areas(g, "gaussian", 2)
             cached2 = np.array(g.face_areas.values, dtype=float)
@@ -255,7 +268,7 @@ def run_case(ctx, case):
     twins.append(("node_to_south_pole", gen.snap(m, "node_spole", int(rng.integers(0, m.n_node))), ident, "acc"))
     for name, tw, omap, mode in twins:
         try:
-            gt = ux.grid_from_mesh(tw)
+            gt = make_grid(tw, source)
             at = areas(gt)
             if mode == "bit":
                 base = a0[omap]
